@@ -143,6 +143,15 @@ impl TreeNodeWithPreviousValue {
         // version of this node.
         if self.latest_node.last_epoch > target_epoch {
             if let Some(previous_node) = &self.previous_node {
+                if previous_node.last_epoch > target_epoch {
+                    // both retained versions of this node are newer than the requested epoch, so
+                    // the state as of the requested epoch is no longer available
+                    return Err(StorageError::Other(format!(
+                        "TreeNode {:?} has no retained version at epoch {}",
+                        NodeKey(self.label),
+                        target_epoch
+                    )));
+                }
                 Ok(previous_node.clone())
             } else {
                 // no previous, return not found
